@@ -60,6 +60,8 @@ def nll_of_string(fn, theta, x, y, sig):
 
 
 def run_pipeline(s, name, n, dd, P=1, seed=0, opts=None):
+    # generous per-function time limits: a wall-clock timeout of the stage's own time_limit on a loaded machine must not decide a verdict
+    opts = opts or {"fit": {"tmax": 300}, "fisher": {"tmax": 300}, "match": {"tmax": 300}}
     res = coord.run_ranks(P, "harness.targets:fit_stages", ("gauss", "d.txt", "r", dd, name, n, ["fit", "fisher", "match", "combine"], seed, opts or {}), s, timeout=3000)
     return res
 
